@@ -12,7 +12,7 @@ INFO = dict(
     trusted=[
         "harness/extract.py for the kernels of push_ts_input / push_expected_nonblocking / push_expected_blocking / push_ts_max / push_selection",
         "monitors: harness/monitors_async.py (independent of the Lean machine); correspondence: harness/asynccheck.py",
-        "modelled, not verified: handler atomicity (see C02); wall-clock mode is not exercised by this check (partial)",
+        "modelled, not verified: handler atomicity (see C02); on the wall clock only the record laws are evaluated (short real-time episodes, non-blocking connections), the Lean machine models the simulated clock",
     ],
     assumptions=["timing relations mixing rounded and unrounded times are read at the 1 us clock resolution (DESIGN 3.1)",
                  "the supervisor's trailing, never-answered step is outside the claim"],
@@ -41,7 +41,23 @@ def run(ctx):
         if len(res.samples) < 2:
             res.samples.append(dict(seed=t["args"]["seed"], spec=spec, stats=stats))
     run_schedules(ctx, res, nsteps=8)
+    run_wallclock(ctx, res)
     return res
+
+
+def run_wallclock(ctx, res):
+    """short real-time episodes on the wall clock (the policy is decided on measured arrival stamps there)"""
+    tasks = [dict(fn="tasks_rt:wallclock_policy_case", args=dict(seed=ctx.rng.randrange(1 << 30)), timeout=300) for _ in range(ctx.n(3, 10))]
+    for t, r in ac.pool_cases(tasks, res, timeout=300):
+        for e, rec in enumerate(r["episodes"]):
+            res.evaluations += 1
+            res.count("wallclock_episodes")
+            fails, stats = mon.c03_wallclock_monitor(r["spec"], rec)
+            res.count("wallclock_msgs", stats["msgs"])
+            for key, desc in fails[:2]:
+                res.fail(key, f"seed={t['args']['seed']} episode {e}: {desc}", dict(task=t, spec=r["spec"], all=[d for _, d in fails[:10]]))
+            if stats["waited"] > 0:
+                res.nontriv(dict(seed=t["args"]["seed"], wallclock=True))
 
 
 def run_schedules(ctx, res, nsteps):
